@@ -359,7 +359,24 @@ func init() {
 		},
 		"(*sync.WaitGroup).Add":  func(r *Run, fn *ssa.Function, a []Value) Value { return nil },
 		"(*sync.WaitGroup).Done": func(r *Run, fn *ssa.Function, a []Value) Value { return nil },
-		"(*sync.WaitGroup).Wait": func(r *Run, fn *ssa.Function, a []Value) Value { return nil },
+		"(*sync.WaitGroup).Wait": func(r *Run, fn *ssa.Function, a []Value) Value {
+			for r.runOneQueued() { // lazy goroutines: everything spawned so far runs to completion
+			}
+			return nil
+		},
+		zz + "LazyGo": func(r *Run, fn *ssa.Function, a []Value) Value {
+			r.lazyGo = true
+			return nil
+		},
+		zz + "KillGoroutines": func(r *Run, fn *ssa.Function, a []Value) Value {
+			r.goQueue = nil
+			return nil
+		},
+		zz + "RunGoroutines": func(r *Run, fn *ssa.Function, a []Value) Value {
+			for r.runOneQueued() {
+			}
+			return nil
+		},
 		"(*sync.Once).Do": func(r *Run, fn *ssa.Function, a []Value) Value {
 			k := "once" + mutexKey(a[0].(*PtrV))
 			if r.mutex[k] == 0 {
@@ -758,6 +775,9 @@ func lockFn(state int, try bool) intrinFn {
 			r.goPanic("runtime error: invalid memory address or nil pointer dereference")
 		}
 		k := mutexKey(p)
+		for r.mutex[k] != 0 && !try && r.runOneQueued() {
+			// lazy goroutines: whoever unlocks it may still be queued
+		}
 		if r.mutex[k] != 0 {
 			if try {
 				return r.ts.Bool(false)
